@@ -451,12 +451,43 @@ func c11SniffSnapshot(c *Ctx) {
 		}
 		return ""
 	}
+	// helpers that set up the tee or read through it count at their call sites
+	direct := func(fn *ssa.Function, want func(cc *ssa.CallCommon) bool) bool {
+		for _, b := range fn.Blocks {
+			for _, in := range b.Instrs {
+				if ci, ok := in.(ssa.CallInstruction); ok && want(ci.Common()) {
+					return true
+				}
+			}
+		}
+		return false
+	}
+	teeFuncs, drainFuncs := map[*ssa.Function]bool{}, map[*ssa.Function]bool{}
+	for round := 0; round < 4; round++ {
+		for _, fn := range c.P.AllModuleFuncs() {
+			if fn.Package() == nil || fn.Package().Pkg.Path() != wsutil {
+				continue
+			}
+			if direct(fn, func(cc *ssa.CallCommon) bool {
+				cal := cc.StaticCallee()
+				return cal != nil && (cal.String() == "io.TeeReader" || teeFuncs[cal])
+			}) {
+				teeFuncs[fn] = true
+			}
+			if teeFuncs[fn] && direct(fn, func(cc *ssa.CallCommon) bool {
+				cal := cc.StaticCallee()
+				return isDrain(cc) != "" || cal != nil && drainFuncs[cal]
+			}) {
+				drainFuncs[fn] = true
+			}
+		}
+	}
 	n := 0
 	for _, fn := range c.P.AllModuleFuncs() {
 		if fn.Package() == nil || fn.Package().Pkg.Path() != wsutil {
 			continue
 		}
-		tee := false
+		tee := teeFuncs[fn]
 		type site struct {
 			b   *ssa.BasicBlock
 			idx int
@@ -480,7 +511,11 @@ func c11SniffSnapshot(c *Ctx) {
 						snaps = append(snaps, site{b, i, in})
 					}
 				}
-				if d := isDrain(cc); d != "" {
+				d := isDrain(cc)
+				if cal := cc.StaticCallee(); d == "" && cal != nil && drainFuncs[cal] {
+					d = shortName(cal.String()) + " (reads through the tee)"
+				}
+				if d != "" {
 					if _, isDefer := in.(*ssa.Defer); !isDefer {
 						drains = append(drains, site{b, i, in})
 						drainNames = append(drainNames, d)
